@@ -8,7 +8,7 @@
   and the orchestrator's segments. No bound on lengths or versions.
   Statement vocabulary: `Covered`, `viewOf`, `stateAt`, `Quiet`, `recover`, `resumeOK`, `oldestReq`,
   `reqCount`, `attemptCount` (Model/C19_Watch); `Target`, `Live`, `remaining` (Model/C19_Ensemble);
-  `Quiescent` (Model/C19_Orchestrator); `RelistsAfter`, `Clusterwide`, `Namespaced`, `ScopeStable` (here).
+  `Quiescent` (Model/C19_Orchestrator); `RelistsAfter` (Model/C19_Watch); `Clusterwide`, `Namespaced`, `ScopeStable` (here).
 -/
 import Kopf.Lemmas.C19_Progress
 import Kopf.Lemmas.C19_Ensemble
@@ -126,26 +126,6 @@ theorem resume_point (as : List Act) : resumeOK (run init as).outs = true :=
 
 example : resumeOK [.reqWatch 7, .bookmark 7, .event .modified 1 5, .reqWatch 3, .listed 3, .reqList] = true := by decide
 example : resumeOK [.reqWatch 5, .bookmark 7, .event .modified 1 5, .reqWatch 3, .listed 3, .reqList] = false := by decide
-
-/-- What "the stream ends without an exception and the next request is a fresh listing" means, for the
-    state `w'` reached from `w`: nothing was yielded or requested, the client sleeps the reconnect backoff,
-    whatever happens afterwards the first request it sends is a list (never a `watch since`), and once the
-    backoff is over and the operator is not paused it does send it. -/
-def RelistsAfter (w w' : World) : Prop :=
-  w'.phase = .backoff ∧ w'.outs = w.outs ∧
-  (∀ as, ∃ new, (run w' as).outs = new ++ w'.outs ∧ ∀ v, oldestReq new ≠ some (.reqWatch v)) ∧
-  (w'.paused = false → (step w' .wake).phase = .listing ∧ (step w' .wake).outs = .reqList :: w'.outs)
-
-theorem relistsAfter_of_backoff {w w' : World} (hph : w'.phase = .backoff) (ho : w'.outs = w.outs) :
-    RelistsAfter w w' := by
-  refine ⟨hph, ho, ?_, ?_⟩
-  · intro as
-    refine ⟨(run { w' with outs := [] } as).outs, run_outs w' as, ?_⟩
-    intro v
-    have h0 : FirstIsList { w' with outs := [] } := Or.inr ⟨rfl, Or.inr (Or.inl hph)⟩
-    rcases firstIsList_run h0 as with h | ⟨h, _⟩ <;> rw [h] <;> simp
-  · intro hp
-    simp [step, hph, hp, startListing, emit]
 
 /-- **Too old (410) → re-list — both forms, run-level.** An ERROR 410 line in the middle of a stream, and
     the answer to a too-old `since` — whether the server sends it as an in-stream ERROR event or as HTTP
